@@ -13,10 +13,13 @@
   and, for lexer output, what `Over` means in bytes: token-aligned, `Pos() < End() ≤ len(input)` (`span_facts`), a child
   run inside a parent run is nested (`span_nested`), two runs in source order do not overlap (`span_ordered`).
   `query_pos_first_token`: `Pos()` of QueryStatement / QueryExpr / Select is the `pos` of the first token.
-  NOT proved: GroupBy, OrderBy and its items, the further select items as a list, `End()` of Select / Query /
-  QueryStatement, and the assembly "every node of the tree returned by ParseQuery" (the per-function statements are not yet
-  threaded through parseSelect); the inner nodes of expression slots are covered by `MF.Props.C05.expr_positions` only
-  when the slot is the whole input.  The QUERY channel compares `Pos()` / `End()` of EVERY node with Go on every OK request.
+  Session 4: GroupBy (`group_span`, with every expression over a sub-run of the body), OrderByItem (`order_item_span`:
+  `DirPos + len(Dir)` is the end of the ASC / DESC token), OrderBy (`order_span`), the further select items as a list
+  (`items_loop_span`), `End()` of Select (`select_span`, with the trailing-comma observation), of Query / QueryStatement
+  (`statement_span`), and a first assembly for the statement node on lexer output (`query_positions_partial`).
+  NOT proved: ONE theorem over every node of the returned tree (the per-call statements are threaded through parseSelect
+  only for the Select's own range); `rest ≠ []` in `query_positions_partial`; the inner nodes of expression slots at an
+  offset (`MF.Props.C05.expr_positions` covers them when the slot is the whole input).  The QUERY channel compares `Pos()` / `End()` of EVERY node with Go on every OK request.
 -/
 import MF.Proofs.QuerySound
 import MF.Proofs.QueryPos
@@ -108,6 +111,63 @@ theorem limit_span {len : Nat} {ts rest : List Token} {l : Limit} (hT : TokensOK
 
 theorem expr_slot_span {len f : Nat} {ts rest : List Token} {e : PExpr} (hT : TokensOK len ts)
     (h : parsePExpr f ts = .ok (e, rest)) : ∃ pre, ts = pre ++ rest ∧ Over (posP e) (endP e) pre := parsePExpr_over hT h
+
+theorem group_span {len f : Nat} {ts rest : List Token} {g : GroupBy} (hT : TokensOK len ts)
+    (h : tryParseGroupBy f ts = .ok (some g, rest)) :
+    ∃ pre, ts = pre ++ rest ∧ Over g.group (endGroupBy g) pre ∧
+      ∃ kw body, pre = kw ++ body ∧ kw ≠ [] ∧ EachOver (g.first :: g.more) posP endP body := tryParseGroupBy_over hT h
+
+theorem order_item_span {len f : Nat} {ts rest : List Token} {i : OrderByItem} (hT : TokensOK len ts)
+    (h : parseOrderByItem f ts = .ok (i, rest)) : ∃ pre, ts = pre ++ rest ∧ Over (posP i.e) (endOrderItem i) pre :=
+  parseOrderByItem_over hT h
+
+theorem order_span {len f : Nat} {ts rest : List Token} {o : OrderBy} (hT : TokensOK len ts)
+    (h : tryParseOrderBy f ts = .ok (some o, rest)) :
+    ∃ pre, ts = pre ++ rest ∧ Over o.order (endOrderBy o) pre ∧
+      ∃ kw body, pre = kw ++ body ∧ kw ≠ [] ∧ EachOver (o.first :: o.more) (fun i => posP i.e) endOrderItem body :=
+  tryParseOrderBy_over hT h
+
+/-- the further select items: each lies over a sub-run of the loop's run, which ends with the last of them; a trailing
+comma is a separate one-token run behind it -/
+theorem items_loop_span {len f : Nat} {ts rest : List Token} {is : List SelectItem} {tr : Bool} (hT : TokensOK len ts)
+    (h : resultsLoop f ts = .ok ((is, tr), rest)) :
+    ∃ pre ptr, ts = pre ++ ptr ++ rest ∧ (tr = false → ptr = []) ∧ (tr = true → ∃ tc, ptr = [tc]) ∧
+      LastIs is endItem pre ∧ EachOver is posItem endItem pre := resultsLoop_over f hT h
+
+/-- `End()` of the Select: the end of its last clause, or of its last item.  The only consumed token that may lie
+outside the Select's range is a trailing comma ending the whole SELECT (`SELECT a,`): `End()` = end of the last item,
+as in the Go code (`nodeEnd(nodeChoice(Having, GroupBy, Where, From, Results[$]))`) -/
+theorem select_span {len f : Nat} {ts rest : List Token} {s : Select} (hT : TokensOK len ts)
+    (h : parseSelect f ts = .ok (s, rest)) :
+    ∃ run tail, ts = run ++ tail ++ rest ∧ Over s.select (endSelect s) run ∧
+      (tail = [] ∨ ∃ tc, tail = [tc] ∧ s.trailing = true ∧ s.from_ = none ∧ s.where_ = none ∧ s.groupBy = none ∧
+        s.having = none) := parseSelect_over hT h
+
+/-- QueryStatement = its QueryExpr (Select, or Query with ORDER BY / LIMIT): over `run`; the Select's run starts it -/
+theorem statement_span {len f : Nat} {ts rest : List Token} {q : QueryStatement} (hT : TokensOK len ts)
+    (h : parseQueryStatement f ts = .ok (q, rest)) :
+    ∃ run tail, ts = run ++ tail ++ rest ∧ Over (posQ q) (endQ q) run ∧ (tail = [] ∨ ∃ tc, tail = [tc]) ∧
+      ∃ srun stail, Over (selectOf q.query).select (endSelect (selectOf q.query)) srun ∧
+        (∃ b, run ++ tail = srun ++ stail ++ b) := parseQueryStatement_over hT h
+
+/-- **assembly, PARTIAL**: for lexer output, the statement node (QueryStatement = Query / Select): token-aligned,
+`Pos() < End() ≤ len(input)`, and `Pos()` is the first token.  PARTIAL: (i) the hypothesis `rest ≠ []` (the `<eof>` token
+is never consumed — true of the model, not proved here); (ii) the clause children are covered by the per-call theorems
+above (`from_span` … `order_span`, `items_loop_span`, `expr_slot_span`) together with `span_nested` / `span_ordered`, but
+they are not yet threaded through this statement into one "for every node of the tree" theorem. -/
+theorem query_positions_partial {buf : Bytes} {ts rest : List Token} {fuel : Nat} {q : QueryStatement}
+    (hl : Lex.lexAll buf = .ok ts) (h : parseQueryStatement fuel ts = .ok (q, rest)) (hr : rest ≠ []) :
+    (∃ t ∈ ts, t.pos = posQ q) ∧ (∃ t ∈ ts, t.end = endQ q) ∧ posQ q < endQ q ∧ endQ q ≤ buf.length ∧
+      posQ q = (hd ts).pos := by
+  have hT : TokensOK buf.length ts := ⟨(lexAll_lexed hl).tok, Lex.lexAll_len hl⟩
+  obtain ⟨run, tail, hts, ho, _, _⟩ := parseQueryStatement_over hT h
+  have hts' : ts = [] ++ run ++ (tail ++ rest) := by rw [hts]; simp
+  obtain ⟨a, b, c, d⟩ := over_facts hl hts' (by simp [hr]) ho
+  refine ⟨a, b, c, d, ?_⟩
+  rw [ho.2.1, hts]
+  cases run with
+  | nil => exact absurd rfl ho.1
+  | cons t r => rfl
 
 /-- lexer output satisfies the token facts -/
 theorem lexed_tokensOK {buf : Bytes} {ts : List Token} (hl : Lex.lexAll buf = .ok ts) : TokensOK buf.length ts :=
